@@ -100,7 +100,7 @@ CLAIMED.update({
  "C17": {
   "engine": "purefh+coqc",
   "technique": "Coq refinement to a map-based specification by induction over all operation sequences (token-level model of the comma-joined lists incl. the leading-comma quirk); kernel-checked lost-update schedule for the unsynchronised variant; trace-acceptor correspondence + reference monitor + concurrent rounds",
-  "text": "C17_listed_is_saved_not_removed: for every sequence of save/remove/read calls, for every address, exactly the saved-and-not-removed transactions that have it as issuer or receiver are listed, none twice; C17_save / C17_remove (receiver-only, off both lists, rejected calls change nothing) / C17_read (returns the listing, changes nothing saved); C17_interleaved_rmw_refuted shows the lost update when the get/set actions interleave, which the mutex (fix 1bdecc5) excludes. The harness reads every address after every operation on the real cache and runs concurrent rounds as failing-input search.",
+  "text": "C17_operations_run_under_the_lock (regenerated table: every call on the store made by Save/Remove/ReadTransactions and their callees holds the cache lock exclusively - the atomicity premise, checked against the source on every run); C17_listed_is_saved_not_removed: for every sequence of save/remove/read calls, for every address, exactly the saved-and-not-removed transactions that have it as issuer or receiver are listed, none twice; C17_save / C17_remove (receiver-only, off both lists, rejected calls change nothing) / C17_read (returns the listing, changes nothing saved); C17_interleaved_rmw_refuted shows the lost update when the get/set actions interleave, which the mutex (fix 1bdecc5) excludes. The harness reads every address after every operation on the real cache and runs concurrent rounds as failing-input search.",
   "note": "Atomicity of the three operations is the premise that turns the sequential theorem into a statement about concurrent use; it rests on the mutex (checked by C18's lock-site translator and the race matrix). Expiry is outside the model.", "design_ref": "6 C17",
  },
 })
